@@ -227,7 +227,7 @@ def unit_solver(name, niter=1, tol=1e-6, timeout_ms=60000, fork_minmax=False,
                 a = _call(f, args, niter, tol)
                 cl = sym_sqrt(v["gamma"] * v["pl"] / v["rhol"])
                 cr = sym_sqrt(v["gamma"] * v["pr"] / v["rhor"])
-                g4 = 2.0 / (v["gamma"] - 1.0)
+                g4 = 2 * (1.0 / (v["gamma"] - 1.0))
                 return a, g4 * (cl + cr), v["ur"] - v["ul"]
             k = 0
             for path in explore(run4, **ex):
